@@ -311,6 +311,10 @@ impl NodeCtx {
                     let req: ClientRequest = serde_json::from_value(x["req"].clone())?;
                     es.push(Entry { index: x["index"].as_u64().unwrap_or(0), term: x["term"].as_u64().unwrap_or(1), payload: EntryPayload::Normal(EntryNormal { data: req }) });
                 }
+                // a follower receives its entries over the wire: the leader's in-memory entries go through serde_json
+                // (raft/network/core.rs: serde_json::to_string(&AppendEntriesRequest), raft_append.rs: from_slice) before they reach the store
+                let wire = serde_json::to_string(&es)?;
+                let es: Vec<Entry<ClientRequest>> = serde_json::from_str(&wire)?;
                 app.raft_store.replicate_to_log(&es).await?;
                 let pairs: Vec<(&u64, &ClientRequest)> = es.iter().filter_map(|e| match &e.payload { EntryPayload::Normal(n) => Some((&e.index, &n.data)), _ => None }).collect();
                 app.raft_store.replicate_to_state_machine(&pairs).await?;
